@@ -285,8 +285,37 @@ fn ang3(a: Cartesian, b: Cartesian) -> f64 {
     (c[0] * c[0] + c[1] * c[1] + c[2] * c[2]).sqrt().atan2(a.x() * b.x() + a.y() * b.y() + a.z() * b.z())
 }
 
+/// signed position of a planar point relative to the face pentagon: 1 when inside, otherwise minus the true distance
+/// to the pentagon.  (The library's own containment value is a cross product divided by the distance to one edge
+/// end-point: at a pentagon vertex it is 0/0-like noise of order 1, not a distance.)
 fn in_face_pentagon(f: Face) -> f64 {
-    a5::core::tiling::get_face_vertices().contains_point(f)
+    let shape = a5::core::tiling::get_face_vertices();
+    let v = shape.get_vertices_vec();
+    let n = v.len();
+    let mut area2 = 0.0;
+    for i in 0..n {
+        let (a, b) = (v[i], v[(i + 1) % n]);
+        area2 += a.x() * b.y() - b.x() * a.y();
+    }
+    let sgn = if area2 >= 0.0 { 1.0 } else { -1.0 };
+    let inside = (0..n).all(|i| {
+        let (a, b) = (v[i], v[(i + 1) % n]);
+        sgn * ((b.x() - a.x()) * (f.y() - a.y()) - (b.y() - a.y()) * (f.x() - a.x())) >= 0.0
+    });
+    if inside {
+        return 1.0;
+    }
+    let mut best = f64::INFINITY;
+    for i in 0..n {
+        let (a, b) = (v[i], v[(i + 1) % n]);
+        let (ex, ey) = (b.x() - a.x(), b.y() - a.y());
+        let (px, py) = (f.x() - a.x(), f.y() - a.y());
+        let l2 = ex * ex + ey * ey;
+        let t = if l2 > 0.0 { ((px * ex + py * ey) / l2).clamp(0.0, 1.0) } else { 0.0 };
+        let (dx, dy) = (px - t * ex, py - t * ey);
+        best = best.min((dx * dx + dy * dy).sqrt());
+    }
+    -best
 }
 
 pub fn search_c15(rng: &mut Rng, thorough: bool) -> SearchResult {
